@@ -418,6 +418,8 @@ def builtin_attr(it, obj, attr):
         return c.read(obj, attr)
     if bt == 'match':
         return SBuiltin('match.' + attr, obj)
+    if bt == 'frame' and attr == 'f_back':
+        return SRef(c.fresh('caller_frame', Ref), 'frame')
     if bt in ('Queue', 'PriorityQueue') and attr == 'mutex':
         return SRef(c.hget(obj, 'mutex'), 'Lock')
     if bt in ('Queue', 'PriorityQueue') and attr == 'queue':
@@ -485,8 +487,10 @@ def construct(it, cls, args, kwargs, node):
         r = c.fresh_ref('tev', 'ThreadEvent')
         c.hset(r, 'flag', z3.BoolVal(False))
         return r
-    if name == 'RLock':
+    if name in ('RLock', 'Lock'):
         r = c.fresh_ref('rlock', 'RLock')
+        c.hset(r, 'held', z3.IntVal(0))
+        c.hset(r, 'epoch', z3.IntVal(0))
         return r
     if name == 'Thread':
         r = c.fresh_ref('thread', 'Thread')
@@ -658,6 +662,17 @@ def call_builtin(it, b, args, kwargs, node):
         return r
     if n == 'datetime.strftime':
         return str_format(it, '<strftime>', [args[0]])
+    if n == 'inspect.currentframe':
+        return SRef(c.fresh('frame', Ref), 'frame')
+    if n == 'inspect.getframeinfo':
+        # (filename, lineno, function, code_context, index): code_context holds the source line of the statement
+        # being executed in that frame -- the ghost `statement line` of the target
+        line = c.pyghost.get('stmt_line')
+        if line is None:
+            raise Unsupported('getframeinfo without a statement-line model')
+        lines = new_list(it, [line], 'str')
+        return (SRef(c.fresh('filename', Ref), 'str'), SInt(c.fresh('lineno', z3.IntSort())),
+                SRef(c.fresh('function', Ref), 'str'), lines, 0)
     if n == 'inspect.ismethod':
         v = args[0]
         if isinstance(v, SFunc):
@@ -686,6 +701,11 @@ def call_builtin(it, b, args, kwargs, node):
     if bt == 'dict':
         if meth == 'keys':
             return SRef(obj.e, 'dict_keys')
+        if meth == 'get':
+            k = key_val(it, args[0])
+            if c.branch(z3.Select(c.hget(obj, '$has'), k), 'dict-get-has'):
+                return SRef(z3.Select(c.hget(obj, '$map'), k), elem_type(obj.pytype))
+            return args[1] if len(args) > 1 else None
         if meth == 'clear':
             c.hset(obj, '$has', z3.K(StrV, z3.BoolVal(False)))
             c.hset(obj, '$len', z3.IntVal(0))
@@ -716,11 +736,8 @@ def call_builtin(it, b, args, kwargs, node):
         raise Unsupported('ThreadEvent.%s' % meth)
     if bt == 'Thread':
         return thread_call(it, obj, meth, args, kwargs)
-    if bt == 'RLock':
-        hook = w.hooks.get('rlock.' + meth)
-        if hook:
-            return hook(it, obj, args, kwargs)
-        raise Unsupported('RLock.%s without lock model' % meth)
+    if bt in ('RLock', 'Lock'):
+        return lock_call(it, obj, meth)
     raise Unsupported('builtin %s' % n)
 
 
@@ -872,6 +889,30 @@ def queue_call(it, obj, meth, args, kwargs):
         c.hset(obj, 'unfinished', un - 1)
         return None
     raise Unsupported('Queue.%s' % meth)
+
+
+def lock_call(it, obj, meth):
+    """Ghost ownership model of a (re-entrant) lock: held = hold count of the CURRENT thread; epoch counts its
+    critical sections.  Blocking while another thread holds it is scheduling, not state."""
+    c = it.c
+    held, ep = c.hget(obj, 'held'), c.hget(obj, 'epoch')
+    mon = c.pyghost.get(('monitor', obj.e.sexpr()))     # (on_enter, invariant) of the monitor this lock protects
+    if meth in ('acquire', '__enter__'):
+        if mon is not None:
+            # entering from outside: the protected state is whatever the last owner left, i.e. the monitor invariant
+            mon[0](it, held == 0)
+        c.hset(obj, 'epoch', z3.If(held == 0, ep + 1, ep))
+        c.hset(obj, 'held', held + 1)
+        return True
+    if meth in ('release', '__exit__'):
+        if not c.branch(held > 0, 'lock-held-by-me'):
+            raise Raised('RuntimeError')          # cannot release un-acquired lock
+        if mon is not None:
+            c.prove('%s:monitor/invariant-restored-when-the-lock-is-given-up' % it.where(),
+                    z3.Implies(held == 1, mon[1](it)), tags=('lock',), assume_after=False)
+        c.hset(obj, 'held', held - 1)
+        return None
+    raise Unsupported('lock.%s' % meth)
 
 
 def thread_call(it, obj, meth, args, kwargs):
